@@ -33,9 +33,13 @@ def run(ctx):
               'ensure_1d_with_singleton are identities of that algebra (their shape effect is C19)')
     ctx.trust('np.concatenate(axis=1) appends columns; .sum(axis=1) sums columns')
     ctx.assume('the extraction returns a single column (checked structurally by C03.R6)')
-    siftcore.rule_residual_invariant(ctx, 'C01.R1', sift, is_gni)
-    siftcore.rule_cleared_flag(ctx, 'C01.R2', gni)
-    siftcore.rule_licensed_exits(ctx, 'C01.R3', sift, is_gni)
-    siftcore.rule_none_chain(ctx, 'C01.R4', gni)
-    siftcore.rule_no_clobber(ctx, 'C01.R5', sift, 'emd.sift.get_next_imf',
+    ctx.rule(siftcore.rule_residual_invariant, 'C01.R1', sift, is_gni)
+    ctx.rule(siftcore.rule_cleared_flag, 'C01.R2', gni)
+    ctx.rule(siftcore.rule_licensed_exits, 'C01.R3', sift, is_gni)
+    ctx.rule(siftcore.rule_none_chain, 'C01.R4', gni)
+    ctx.rule(siftcore.rule_through_layer_loop, 'C01.R3', sift, ('emd.sift.get_next_imf',))
+    # 'fewer than two interior maxima / minima' is about strict local extrema: the search that feeds the None-chain
+    from . import c05
+    ctx.rule(c05.rule_strict_search, 'C01.R4')
+    ctx.rule(siftcore.rule_no_clobber, 'C01.R5', sift, 'emd.sift.get_next_imf',
                              [{'stop_method': sm, 'energy_thresh': None} for sm in siftcore.STOP_METHODS])
